@@ -199,8 +199,10 @@ def do_replay(prop, spec, path, scratch):
 
 def finish(prop, spec, tier, results, herr, wall):
     known = [k for k in load_known() if k["prop"] == prop]
-    os.makedirs(os.path.join(VERIF, "evidence"), exist_ok=True)
-    os.makedirs(os.path.join(VERIF, "replays"), exist_ok=True)
+    # VERIF_OUT: scratch output root for trial runs against seeded changes (never used by registered commands)
+    OUT = os.environ.get("VERIF_OUT", VERIF)
+    os.makedirs(os.path.join(OUT, "evidence"), exist_ok=True)
+    os.makedirs(os.path.join(OUT, "replays"), exist_ok=True)
     numeric, sets, samples, notes, caps = {}, {}, [], [], []
     exhaustive = True
     viols = []
@@ -246,7 +248,7 @@ def finish(prop, spec, tier, results, herr, wall):
         seen_sig[v["sig"]] = 1
         if idx >= 10:
             continue
-        path = os.path.join(VERIF, "replays", "%s-%d.json" % (prop, idx))
+        path = os.path.join(OUT, "replays", "%s-%d.json" % (prop, idx))
         json.dump(dict(property=prop, tier=tier, stage=v.get("stage"), sig=v["sig"], detail=v.get("detail", ""),
                        replay=v.get("replay")), open(path, "w"), indent=1)
         replay_paths.append(path)
@@ -276,7 +278,7 @@ def finish(prop, spec, tier, results, herr, wall):
     ev = dict(property_id=prop, tier=tier, seed=int(os.environ.get("VERIF_SEED", "0")), level=level, coverage=cov,
               assumptions=spec.get("assumptions", []), wall_s=round(wall, 2), violations=len(seen_sig),
               technique=spec.get("technique", ""))
-    json.dump(ev, open(os.path.join(VERIF, "evidence", prop + ".json"), "w"), indent=1, sort_keys=True)
+    json.dump(ev, open(os.path.join(OUT, "evidence", prop + ".json"), "w"), indent=1, sort_keys=True)
     if herr:
         print("HARNESS-ERROR:", herr)
         return 2
